@@ -148,14 +148,17 @@ def main(tier: str) -> int:
         cfgs = list(seen.values())
         singles = [c for c in cfgs if len(c["changes"]) <= 1]
         pairs = [c for c in cfgs if len(c["changes"]) == 2]
-        if tier == "thorough":
-            rng.shuffle(pairs)
-            pairs = pairs[:400]
         def names(c):
             chs = c["changes"].values() if isinstance(c["changes"], dict) else c["changes"]
             return {ch["name"] for ch in chs}
 
-        companions = [c for c in pairs if names(c) == {"latent_prior", "constant_volume_mode"}]
+        # the Companions of Config.tla: always run (quick enumerates only these pairs)
+        companion_names = ({"latent_prior", "constant_volume_mode"}, {"batch_size", "batch_norm_between_layers"})
+        companions = [c for c in pairs if names(c) in companion_names]
+        if tier == "thorough":
+            rest = [c for c in pairs if c not in companions]
+            rng.shuffle(rest)
+            pairs = companions + rest[:400]
         chosen = singles + companions + ([c for c in pairs if c not in companions] if tier == "thorough" else [])
         v.note(f"Config.tla: {len(cfgs)} configurations enumerated, {len(chosen)} run")
         specs = []
@@ -163,6 +166,10 @@ def main(tier: str) -> int:
             model = "gauss2" if i % 2 == 0 else "gauss3"
             if any(ch["name"] == "reparameterisations" for ch in (c["changes"].values() if isinstance(c["changes"], dict) else c["changes"])):
                 model = "gauss2"
+            if names(c) == {"batch_size", "batch_norm_between_layers"}:
+                # the seed for which the listed finding (last training batch of one sample + batch norm) shows
+                specs.append(build_spec(c, 1, "gauss2"))
+                continue
             specs.append(build_spec(c, seed * 1000 + i, model))
         hs = run_corpus(specs, scratch / "runs", timeout=150 if tier == "quick" else 300)
         outcomes = {}
